@@ -286,6 +286,28 @@ def intermediate (oj op : List Nat) (s : FState) : FState :=
   let s₁ := oj.foldl finaliseStep s
   { s₁ with trie := op.foldl (flushStep s₁.objs) s₁.trie, pending := fun _ => false }
 
+/-! ### updateStakingTrie with records that fail to encode
+
+`rlp.EncodeToBytes` fails for a record with a negative `FinalValue`. `recs k = none` models such a record,
+`some v` its encoding. The flag is "an error was met" (reported by `IntermediateRoot` via `setError`; on error the dirty
+set is kept and the pending relationship is not written — both independent of the order). -/
+
+/-- loop body of the code that exists (after fix 6c7591b): a failing record is skipped, the loop goes on -/
+def stakingStep (recs : Nat → Option Nat) (acc : Content × Bool) (k : Nat) : Content × Bool :=
+  match recs k with
+  | some v => (fun x => if x = k then some v else acc.1 x, acc.2)
+  | none => (acc.1, true)
+
+def updateStakingTrie (o : List Nat) (recs : Nat → Option Nat) (t : Content) : Content × Bool :=
+  o.foldl (stakingStep recs) (t, false)
+
+/-- loop body before the fix: `return err` inside the loop — nothing after the first failing record is written -/
+def stakingStepOld (recs : Nat → Option Nat) (acc : Content × Bool) (k : Nat) : Content × Bool :=
+  if acc.2 then acc else stakingStep recs acc k
+
+def updateStakingTrieOld (o : List Nat) (recs : Nat → Option Nat) (t : Content) : Content × Bool :=
+  o.foldl (stakingStepOld recs) (t, false)
+
 /-! ## GetValidators: arbitrary-order collection, then sort by a total order
 
 `Validator.Less` compares (stake, token, main address) lexicographically; main addresses are unique, so it is a strict
